@@ -79,13 +79,15 @@ type Env struct {
 	// RangeOnce: a range statement is evaluated for one representative element (its variables stay unbound): for
 	// search loops whose body does not depend on the element under the rule's hooks - "some element satisfies P"
 	RangeOnce bool
-	depth     int
+	// AssertOK: "v, ok := x.(T)" succeeds with the value of x (for values the rule builds with the asserted type)
+	AssertOK bool
+	depth    int
 	// branch: a pending "continue" / "break" of the innermost loop being interpreted
 	branch string
 }
 
 func (env *Env) child(pkg *packages.Package) *Env {
-	return &Env{P: env.P, Pkg: pkg, Vars: map[types.Object]*Val{}, Hook: env.Hook, Multi: env.Multi, MapOk: env.MapOk, MapStore: env.MapStore, RangeOnce: env.RangeOnce, depth: env.depth + 1}
+	return &Env{P: env.P, Pkg: pkg, Vars: map[types.Object]*Val{}, Hook: env.Hook, Multi: env.Multi, MapOk: env.MapOk, MapStore: env.MapStore, RangeOnce: env.RangeOnce, AssertOK: env.AssertOK, depth: env.depth + 1}
 }
 
 type evalErr struct{ msg string }
@@ -258,6 +260,14 @@ func (env *Env) eval(e ast.Expr) *Val {
 			}
 		}
 		env.fail(e, "index "+types.ExprString(e))
+	case *ast.SliceExpr:
+		// levels[:] - the whole of an evaluated table
+		if x.Low == nil && x.High == nil && x.Max == nil {
+			if base := env.eval(x.X); base != nil && base.IsSlice {
+				return base
+			}
+		}
+		env.fail(e, "slice expression")
 	case *ast.FuncLit:
 		return &Val{Lit: x, LitEnv: env}
 	case *ast.CompositeLit:
@@ -267,16 +277,58 @@ func (env *Env) eval(e ast.Expr) *Val {
 			}
 		}
 		if tv, ok := info.Types[x]; ok {
-			switch tv.Type.Underlying().(type) {
+			switch ut := tv.Type.Underlying().(type) {
 			case *types.Slice, *types.Array:
 				sv := &Val{IsSlice: true}
+				next := 0
 				for _, el := range x.Elts {
-					if _, keyed := el.(*ast.KeyValueExpr); keyed {
-						env.fail(e, "slice literal with indices")
+					if kv, keyed := el.(*ast.KeyValueExpr); keyed {
+						// levels = [...]pair{a, fallback: b, c}: the index continues after the key
+						k := env.eval(kv.Key)
+						n, exact := int64(-1), false
+						if k != nil && k.C != nil && k.C.Kind() == constant.Int {
+							n, exact = constant.Int64Val(k.C)
+						}
+						if !exact || n < 0 || n > 4096 {
+							env.fail(e, "slice literal with a key that is not a small constant")
+						}
+						next = int(n)
+						el = kv.Value
 					}
-					sv.Elems = append(sv.Elems, env.eval(el))
+					for len(sv.Elems) <= next {
+						sv.Elems = append(sv.Elems, nil)
+					}
+					sv.Elems[next] = env.eval(el)
+					next++
+				}
+				var elemT types.Type
+				switch st := ut.(type) {
+				case *types.Slice:
+					elemT = st.Elem()
+				case *types.Array:
+					elemT = st.Elem()
+				}
+				for i, ev := range sv.Elems {
+					if ev == nil {
+						if z := zeroVal(elemT); z != nil {
+							sv.Elems[i] = z
+						} else {
+							env.fail(e, "slice literal with a gap")
+						}
+					}
 				}
 				return sv
+			case *types.Struct:
+				// positional fields: pair{grpcLevel, modelLevel}
+				if len(x.Elts) > 0 {
+					if _, keyed := x.Elts[0].(*ast.KeyValueExpr); !keyed && len(x.Elts) == ut.NumFields() {
+						v := &Val{Fields: map[string]*Val{}, Complete: true}
+						for i, el := range x.Elts {
+							v.Fields[ut.Field(i).Name()] = env.eval(el)
+						}
+						return v
+					}
+				}
 			}
 		}
 		v := &Val{Fields: map[string]*Val{}, Complete: true}
@@ -400,6 +452,28 @@ func (env *Env) evalCall(c *ast.CallExpr) *Val {
 		}
 		return intVal(0)
 	}
+	// slices.IndexFunc(table, pred) / slices.ContainsFunc(table, pred) over an evaluated table and a closure
+	if (isFunc(info, c, "slices", "IndexFunc") || isFunc(info, c, "slices", "ContainsFunc")) && len(c.Args) == 2 {
+		tab, tErr := env.Eval(c.Args[0])
+		pred, pErr := env.Eval(c.Args[1])
+		if tErr == nil && pErr == nil && tab != nil && tab.IsSlice && pred != nil && pred.Lit != nil {
+			at := -1
+			for i, el := range tab.Elems {
+				ret := env.callClosure(c, pred, []*Val{el})
+				if len(ret) != 1 || ret[0] == nil || ret[0].C == nil || ret[0].C.Kind() != constant.Bool {
+					env.fail(c, "predicate without a boolean value")
+				}
+				if constant.BoolVal(ret[0].C) {
+					at = i
+					break
+				}
+			}
+			if isFunc(info, c, "slices", "ContainsFunc") {
+				return boolVal(at >= 0)
+			}
+			return intVal(int64(at))
+		}
+	}
 	// slices.Contains(TABLE, x) over a slice literal (a local one or the initialiser of a package-level variable
 	// that is assigned nowhere else): membership in a finite set of constants
 	if isFunc(info, c, "slices", "Contains") && len(c.Args) == 2 {
@@ -461,6 +535,9 @@ func (env *Env) evalCallEffects(c *ast.CallExpr) {
 func (env *Env) evalCallN(c *ast.CallExpr) []*Val {
 	info := env.Pkg.TypesInfo
 	fn, _ := typeutil.Callee(info, c).(*types.Func)
+	if fn != nil {
+		fn = fn.Origin()
+	}
 	if fn == nil {
 		// a local closure: its body runs in the environment it was made in (captured variables are shared)
 		var cv *Val
@@ -486,14 +563,31 @@ func (env *Env) evalCallN(c *ast.CallExpr) []*Val {
 		if cv == nil || cv.Lit == nil || env.depth > 6 {
 			env.fail(c, "dynamic call")
 		}
+		var argv []*Val
+		for _, a := range c.Args {
+			if v, err := env.Eval(a); err == nil && v != nil {
+				argv = append(argv, v)
+			} else {
+				argv = append(argv, nil)
+			}
+		}
+		return env.callClosure(c, cv, argv)
+	}
+	return env.evalDeclCallN(c, fn)
+}
+
+// callClosure runs a function literal in the environment it was made in (captured variables are shared) with the
+// given argument values (nil = outside the domain: the parameter stays unbound).
+func (env *Env) callClosure(c *ast.CallExpr, cv *Val, argv []*Val) []*Val {
+	{
 		le := cv.LitEnv
-		ce := &Env{P: le.P, Pkg: le.Pkg, Vars: le.Vars, Hook: le.Hook, Body: le.Body, Multi: le.Multi, MapOk: le.MapOk, MapStore: le.MapStore, RangeOnce: le.RangeOnce, depth: env.depth + 1}
+		ce := &Env{P: le.P, Pkg: le.Pkg, Vars: le.Vars, Hook: le.Hook, Body: le.Body, Multi: le.Multi, MapOk: le.MapOk, MapStore: le.MapStore, RangeOnce: le.RangeOnce, AssertOK: le.AssertOK, depth: env.depth + 1}
 		i := 0
 		for _, fld := range cv.Lit.Type.Params.List {
 			for _, nm := range fld.Names {
-				if i < len(c.Args) {
-					if v, err := env.Eval(c.Args[i]); err == nil && v != nil {
-						ce.Vars[le.Pkg.TypesInfo.Defs[nm]] = v
+				if i < len(argv) {
+					if argv[i] != nil {
+						ce.Vars[le.Pkg.TypesInfo.Defs[nm]] = argv[i]
 					} else {
 						delete(ce.Vars, le.Pkg.TypesInfo.Defs[nm])
 					}
@@ -530,6 +624,10 @@ func (env *Env) evalCallN(c *ast.CallExpr) []*Val {
 		}
 		return ret
 	}
+}
+
+// evalDeclCallN runs the body of a declared function of the module.
+func (env *Env) evalDeclCallN(c *ast.CallExpr, fn *types.Func) []*Val {
 	fi := env.P.Funcs[fkey(fn)]
 	if fi == nil || fi.Decl.Body == nil {
 		env.fail(c, "call to non-product function "+fkey(fn))
@@ -694,6 +792,11 @@ func (env *Env) execBlock(list []ast.Stmt) ([]*Val, bool) {
 						env.assignTo(x.Lhs[1], boolVal(present))
 						continue
 					}
+				}
+				if ta, ok := ast.Unparen(x.Rhs[0]).(*ast.TypeAssertExpr); ok && len(x.Rhs) == 1 && len(x.Lhs) == 2 && env.AssertOK && ta.Type != nil {
+					env.assignTo(x.Lhs[0], env.eval(ta.X))
+					env.assignTo(x.Lhs[1], boolVal(true))
+					continue
 				}
 				if c, ok := ast.Unparen(x.Rhs[0]).(*ast.CallExpr); ok && len(x.Rhs) == 1 {
 					// a function of the module with several results: run its body
